@@ -2,7 +2,7 @@
    parse_rule's loop (one iteration each), then productions, rule blocks and the
    whole section. *)
 From Coq Require Import List Arith NArith ZArith Bool Lia.
-From GV Require Import Common.Outcome C10.YpModel C10.YpSpec C10.YpProofs C10.YpPrint C10.YpRoundSpec C10.YpRoundBase C10.YpRoundInv.
+From GV Require Import Common.Outcome C10.YpModel C10.YpSpec C10.YpProofs C10.YpPrint C10.YpRoundSpec C10.YpRoundBase C10.YpRoundInv C10.YpRoundAction.
 Import ListNotations.
 Local Open Scope nat_scope.
 
@@ -150,19 +150,6 @@ Proof.
   assert (Hs2 : src = ((pre ++ kw_empty) ++ pg_empty pl) ++ rest) by (rewrite Hs; lsolve).
   assert (Hi2 : i + 6 + byte_len (pg_empty pl) = byte_len ((pre ++ kw_empty) ++ pg_empty pl))
     by (subst i; rewrite !byte_len_app, kw_empty_len; reflexivity).
-  assert (Hla : forall st,
-    (bind st7, t1 <- look src st kw_bar (i + 6 + byte_len (pg_empty pl));
-     bind st8, t2 <- (if is_some t1 then ret st7 t1 else look src st7 kw_semi (i + 6 + byte_len (pg_empty pl)));
-     bind st9, t3 <- (if is_some t2 then ret st8 t2 else look src st8 kw_lbrace (i + 6 + byte_len (pg_empty pl)));
-     bind st10, t4 <- (if is_some t3 then ret st9 t3 else look src st9 kw_prec (i + 6 + byte_len (pg_empty pl)));
-     ret st10 (is_some t4)) = Done (st, Ok true)).
-  { intros st. destruct Hfo as [r [H|[H|[H|H]]]]; subst rest.
-    - look1 Hs2 Hi2. reflexivity.
-    - do 2 look1 Hs2 Hi2. reflexivity.
-    - do 3 look1 Hs2 Hi2. reflexivity.
-    - assert (Hs2' : src = ((pre ++ kw_empty) ++ pg_empty pl) ++ 37%N :: ([112; 114; 101; 99]%N ++ r))
-        by (rewrite Hs2; reflexivity).
-      do 3 look1 Hs2' Hi2. look1 Hs2 Hi2. reflexivity. }
   destruct Hfo as [r [H|[H|[H|H]]]]; subst rest.
   - look1 Hs2 Hi2. cbn [negb orb].
     rewrite (ws_none _ _ _ _ _ _ _ _ true Hs2 Hi2 Hr). cbn [sbind]. reflexivity.
@@ -174,4 +161,682 @@ Proof.
       by (rewrite Hs2; reflexivity).
     do 3 look1 Hs2' Hi2. look1 Hs2 Hi2. cbn [negb orb].
     rewrite (ws_none _ _ _ _ _ _ _ _ true Hs2 Hi2 Hr). cbn [sbind]. reflexivity.
+Qed.
+
+(* ---- terminators ---------------------------------------------------------------- *)
+Definition pend_or (pend : option nat) (i : nat) : nat := match pend with Some e => e | None => i end.
+
+Lemma add_prod_st_ok : forall n a g e rn syms prec act pstart pend i,
+  has_rule a rn = true -> pstart <= pend_or pend i ->
+  add_prod_st (mkSt n a g e) rn syms prec act pstart pend i
+  = Done (mkSt n (add_prod_t a rn syms prec act (pstart, pend_or pend i)) g e, Ok tt).
+Proof.
+  intros n a g e rn syms prec act pstart pend i Hr Hle. unfold add_prod_st.
+  fold (pend_or pend i). rewrite mk_span_le by exact Hle. cbn [lifto sbind ast].
+  rewrite add_prod_done by exact Hr. cbn [lifto sbind]. stn. reflexivity.
+Qed.
+
+Lemma rl_step_bar : forall fa src pre gt rest i f n a g e rn syms prec act pstart pend,
+  src = pre ++ c_bar :: gt ++ rest -> i = byte_len pre ->
+  layout_text gt -> item_start rest ->
+  has_rule a rn = true -> pstart <= pend_or pend i ->
+  rule_loop true fa src (byte_len src) (fuel_for src) (S f) (mkSt n a g e) rn i syms prec act pstart pend
+  = rule_loop true fa src (byte_len src) (fuel_for src) f
+      (mkSt (n + count_nl gt) (add_prod_t a rn syms prec act (pstart, pend_or pend i)) g e)
+      rn (i + 1 + byte_len gt) [] None None (i + 1 + byte_len gt) None.
+Proof.
+  intros fa src pre gt rest i f n a g e rn syms prec act pstart pend Hs Hi Hl Hr Hru Hle.
+  cbn [rule_loop].
+  rewrite (lt_len_at _ _ _ _ _ Hs Hi). cbn [negb].
+  look1 Hs Hi.
+  rewrite add_prod_st_ok by assumption. cbn [sbind].
+  assert (Hs1 : src = (pre ++ [c_bar]) ++ gt ++ rest) by (rewrite Hs; lsolve).
+  assert (Hi1 : i + byte_len kw_bar = byte_len (pre ++ [c_bar])) by (subst i; rewrite byte_len_app; reflexivity).
+  rewrite (ws_gap _ _ _ _ _ _ _ _ _ true Hs1 Hi1 Hl Hr) by (intros HH; discriminate HH).
+  cbn [sbind]. change (byte_len kw_bar) with 1. reflexivity.
+Qed.
+
+Lemma rl_step_semi : forall fa src pre rest i f n a g e rn syms prec act pstart pend,
+  src = pre ++ c_semi :: rest -> i = byte_len pre ->
+  has_rule a rn = true -> pstart <= pend_or pend i ->
+  rule_loop true fa src (byte_len src) (fuel_for src) (S f) (mkSt n a g e) rn i syms prec act pstart pend
+  = Done (mkSt n (add_prod_t a rn syms prec act (pstart, pend_or pend i)) g e, Ok (i + 1)).
+Proof.
+  intros fa src pre rest i f n a g e rn syms prec act pstart pend Hs Hi Hru Hle.
+  cbn [rule_loop].
+  rewrite (lt_len_at _ _ _ _ _ Hs Hi). cbn [negb].
+  do 2 look1 Hs Hi.
+  rewrite add_prod_st_ok by assumption. cbn [sbind ret]. reflexivity.
+Qed.
+
+(* ---- actions ---------------------------------------------------------------------- *)
+(* an action is followed (after its gap) by a terminator *)
+Definition term_start (rest : str) : Prop := exists r, rest = c_bar :: r \/ rest = c_semi :: r.
+Lemma term_item_start : forall rest, term_start rest -> item_start rest.
+Proof. intros rest [r [H|H]]; subst rest; reflexivity. Qed.
+
+Lemma rl_step_action : forall fa src pre pl t rest i f n a g e rn syms prec act pstart pend,
+  src = pre ++ c_lbrace :: (p_pad1 pl ++ t ++ p_pad2 pl) ++ c_rbrace :: pg_act pl ++ rest -> i = byte_len pre ->
+  wf_action t -> wf_pad (p_pad1 pl) -> wf_pad (p_pad2 pl) -> layout_text (pg_act pl) -> term_start rest ->
+  exists n',
+  rule_loop true fa src (byte_len src) (fuel_for src) (S f) (mkSt n a g e) rn i syms prec act pstart pend
+  = rule_loop true fa src (byte_len src) (fuel_for src) f (mkSt n' a g e)
+      rn (i + 1 + byte_len (p_pad1 pl ++ t ++ p_pad2 pl) + 1 + byte_len (pg_act pl))
+      syms prec (Some (t, act_span fa pl i t)) pstart (Some i).
+Proof.
+  intros fa src pre pl t rest i f n a g e rn syms prec act pstart pend Hs Hi Ha Hp1 Hp2 Hl Ht.
+  pose proof (term_item_start _ Ht) as Hr.
+  set (body := p_pad1 pl ++ t ++ p_pad2 pl) in *.
+  eexists.
+  cbn [rule_loop].
+  rewrite (lt_len_at _ _ _ _ _ Hs Hi). cbn [negb].
+  do 6 look1 Hs Hi.
+  cbn [nn].
+  rewrite (parse_action_roundtrip _ _ _ _ _ _ _ n Hs Hi Ha Hp1 Hp2).
+  cbn [lift_nn sbind]. stn.
+  assert (Hs1 : src = ((pre ++ [c_lbrace]) ++ body ++ [c_rbrace]) ++ pg_act pl ++ rest) by (rewrite Hs; lsolve).
+  assert (Hi1 : i + 1 + byte_len body + 1 = byte_len ((pre ++ [c_lbrace]) ++ body ++ [c_rbrace]))
+    by (subst i; rewrite !byte_len_app; cbn [byte_len]; change (len_utf8 c_lbrace) with 1;
+        change (len_utf8 c_rbrace) with 1; lia).
+  rewrite (ws_gap _ _ _ _ _ _ _ _ _ true Hs1 Hi1 Hl Hr) by (intros HH; discriminate HH).
+  cbn [sbind].
+  rewrite (action_span_roundtrip fa _ _ _ _ _ _ Hs Hi Ha Hp1 Hp2). cbn [lifto sbind].
+  assert (Hs2 : src = (((pre ++ [c_lbrace]) ++ body ++ [c_rbrace]) ++ pg_act pl) ++ rest) by (rewrite Hs; lsolve).
+  assert (Hi2 : i + 1 + byte_len body + 1 + byte_len (pg_act pl)
+                = byte_len (((pre ++ [c_lbrace]) ++ body ++ [c_rbrace]) ++ pg_act pl))
+    by (rewrite Hi1; rewrite (byte_len_app _ (pg_act pl)); reflexivity).
+  destruct Ht as [r [H|H]]; subst rest.
+  - look1 Hs2 Hi2. cbn [negb].
+    rewrite (ws_none _ _ _ _ _ _ _ _ true Hs2 Hi2 Hr). cbn [sbind]. reflexivity.
+  - do 2 look1 Hs2 Hi2. cbn [negb].
+    rewrite (ws_none _ _ _ _ _ _ _ _ true Hs2 Hi2 Hr). cbn [sbind]. reflexivity.
+Qed.
+
+(* ======================================================================== *)
+(*  A run of symbols                                                         *)
+(* ======================================================================== *)
+Lemma wf_sym_cls : forall D pl k s a, wf_sym D pl k s -> tok_inv D a -> sym_cls a pl k s.
+Proof.
+  intros D pl k s a [_ H] [_ Hd]. destruct s as [nm|nm]; cbn [sym_cls].
+  - rewrite Hd. exact H.
+  - destruct (pq_sym pl k); [rewrite Hd; exact H | exact I ..].
+Qed.
+
+Lemma quote_not_tok_cont : forall q, q <> QBare -> tok_cont (qchar q) = false.
+Proof. intros [| |] H; [congruence | reflexivity ..]. Qed.
+
+Lemma print_syms_item_start : forall D pl ss k rest,
+  wf_syms D pl k ss -> item_start rest -> item_start (print_syms pl k ss ++ rest).
+Proof.
+  intros D pl [|s ss] k rest Hw Hr; [exact Hr|]. cbn [print_syms wf_syms] in *.
+  destruct Hw as [[Hq _] _]. unfold print_sym. rewrite <- app_assoc. apply print_tok_item_start. exact Hq.
+Qed.
+
+(* what follows symbol k of a run *)
+Lemma syms_follow : forall D pl k s ss rest,
+  wf_syms D pl k (s :: ss) -> not_starting tok_cont rest ->
+  tok_follow (sym_q pl k s) (pg_sym pl k ++ print_syms pl (S k) ss ++ rest).
+Proof.
+  intros D pl k s ss rest Hw Hr. cbn [wf_syms] in Hw. destruct Hw as [_ [Hl [Hsep Hw']]].
+  destruct (sym_q pl k s) eqn:Eq; cbn [tok_follow]; try exact I.
+  destruct (pg_sym pl k) as [|c gp] eqn:Eg.
+  - cbn [app]. destruct ss as [|s' ss']; [exact Hr|].
+    specialize (Hsep eq_refl eq_refl). cbn [print_syms wf_syms] in *.
+    destruct Hw' as [[Hq' _] _]. unfold print_sym.
+    destruct (print_tok_hd _ _ Hq') as [c' [t' [E' Hc']]]. rewrite E'. cbn [app not_starting].
+    destruct (sym_q pl (S k) s'); [congruence | subst c'; reflexivity ..].
+  - apply not_starting_layout; [exact tok_cont_first_ok | exact Hl | discriminate].
+Qed.
+
+Lemma rl_syms : forall fa D pl ss k src pre rest i f n a g e rn syms prec act pstart pend,
+  src = pre ++ print_syms pl k ss ++ rest -> i = byte_len pre ->
+  wf_syms D pl k ss -> tok_inv D a ->
+  item_start rest -> not_starting tok_cont rest ->
+  exists n',
+  rule_loop true fa src (byte_len src) (fuel_for src) (List.length ss + f) (mkSt n a g e) rn i syms prec act pstart pend
+  = rule_loop true fa src (byte_len src) (fuel_for src) f (mkSt n' (syms_ins pl k i ss a) g e) rn
+      (i + byte_len (print_syms pl k ss)) (syms ++ syms_out pl k i ss) prec act pstart (syms_pend pl k i ss pend).
+Proof.
+  intros fa D pl ss. induction ss as [|s ss IH];
+    intros k src pre rest i f n a g e rn syms prec act pstart pend Hs Hi Hw Hinv Hr Hnt.
+  - exists n. cbn [List.length Nat.add print_syms byte_len syms_ins syms_out syms_pend].
+    rewrite Nat.add_0_r, app_nil_r. reflexivity.
+  - cbn [List.length Nat.add print_syms syms_ins syms_out syms_pend].
+    pose proof Hw as Hw0. cbn [wf_syms] in Hw. destruct Hw as [Hws [Hl [_ Hw']]].
+    assert (Hs1 : src = pre ++ print_sym pl k s ++ pg_sym pl k ++ (print_syms pl (S k) ss ++ rest))
+      by (rewrite Hs; cbn [print_syms]; lsolve).
+    rewrite (rl_step_sym fa _ _ _ _ _ _ _ _ n a g e rn syms prec act pstart pend Hs1 Hi
+               (proj1 Hws) (syms_follow _ _ _ _ _ _ Hw0 Hnt) Hl
+               (print_syms_item_start _ _ _ _ _ Hw' Hr) (wf_sym_cls _ _ _ _ _ Hws Hinv)).
+    assert (Hs2 : src = (pre ++ print_sym pl k s ++ pg_sym pl k) ++ print_syms pl (S k) ss ++ rest)
+      by (rewrite Hs; cbn [print_syms]; lsolve).
+    assert (Hi2 : sym_next pl k i s = byte_len (pre ++ print_sym pl k s ++ pg_sym pl k))
+      by (unfold sym_next; subst i; rewrite !byte_len_app; lia).
+    assert (Hinv' : tok_inv D (match sym_q pl k s with
+                               | QBare => a
+                               | _ => tokens_insert a (sym_name s) (sym_span_at pl k i s)
+                               end))
+      by (destruct (sym_q pl k s); [exact Hinv | apply tok_inv_tokens_insert; exact Hinv ..]).
+    destruct (IH (S k) src _ rest _ f (n + count_nl (pg_sym pl k)) _ g e rn (syms ++ [sym_at pl k i s])
+                 prec act pstart (Some (i + byte_len (print_sym pl k s))) Hs2 Hi2 Hw' Hinv' Hr Hnt) as [n' Hn'].
+    exists n'. rewrite Hn'. rewrite <- app_assoc. cbn [app].
+    f_equal. unfold sym_next. rewrite !byte_len_app. lia.
+Qed.
+
+(* ======================================================================== *)
+(*  One production (up to its terminator)                                    *)
+(* ======================================================================== *)
+(* text that starts with '%', '{', '|' or ';' *)
+Definition punct_start (r : str) : Prop :=
+  exists c r', r = c :: r' /\ (c = 37%N \/ c = c_lbrace \/ c = c_bar \/ c = c_semi).
+
+Lemma punct_item_start : forall r, punct_start r -> item_start r.
+Proof. intros r [c [r' [E [H|[H|[H|H]]]]]]; subst r c; reflexivity. Qed.
+Lemma punct_not_tok_cont : forall r, punct_start r -> not_starting tok_cont r.
+Proof. intros r [c [r' [E [H|[H|[H|H]]]]]]; subst r c; reflexivity. Qed.
+Lemma term_punct : forall r, term_start r -> punct_start r.
+Proof. intros r [r' [H|H]]; subst r; eexists _, _; split; [reflexivity | tauto | reflexivity | tauto]. Qed.
+
+Lemma action_punct : forall pl p rest, term_start rest -> punct_start (print_action pl p ++ rest).
+Proof.
+  intros pl p rest Ht. unfold print_action. destruct (ap_action p).
+  - eexists _, _. split; [reflexivity | tauto].
+  - apply term_punct. exact Ht.
+Qed.
+Lemma prec_punct : forall pl p rest, term_start rest -> punct_start (print_prec pl p ++ print_action pl p ++ rest).
+Proof.
+  intros pl p rest Ht. unfold print_prec. destruct (ap_prec p).
+  - eexists _, _. split; [reflexivity | tauto].
+  - apply action_punct. exact Ht.
+Qed.
+
+Lemma stage_empty : forall fa src pre (b : bool) pl rest i f n a g e rn prec act pstart pend,
+  src = pre ++ (if b then kw_empty ++ pg_empty pl else []) ++ rest -> i = byte_len pre ->
+  layout_text (pg_empty pl) -> (b = true -> empty_follow rest) ->
+  exists n',
+  rule_loop true fa src (byte_len src) (fuel_for src) ((if b then 1 else 0) + f) (mkSt n a g e) rn i [] prec act pstart pend
+  = rule_loop true fa src (byte_len src) (fuel_for src) f (mkSt n' a g e) rn
+      (i + byte_len (if b then kw_empty ++ pg_empty pl else [])) [] prec act pstart
+      (if b then Some (i + byte_len kw_empty) else pend).
+Proof.
+  intros fa src pre b pl rest i f n a g e rn prec act pstart pend Hs Hi Hl Hf. destruct b.
+  - eexists. cbn [Nat.add]. rewrite <- app_assoc in Hs.
+    rewrite (rl_step_empty fa _ _ _ _ _ _ n a g e rn prec act pstart pend Hs Hi Hl (Hf eq_refl)).
+    rewrite byte_len_app, kw_empty_len. rewrite Nat.add_assoc. reflexivity.
+  - exists n. cbn [Nat.add byte_len]. rewrite Nat.add_0_r. reflexivity.
+Qed.
+
+Lemma stage_prec : forall fa src pre pl (o : option str) rest i f n a g e rn syms act pstart pend,
+  src = pre ++ (match o with Some t => kw_prec ++ pg_prec1 pl ++ print_tok (pq_prec pl) t ++ pg_prec2 pl | None => [] end)
+            ++ rest -> i = byte_len pre ->
+  match o with
+  | Some t => is_qname (pq_prec pl) t /\ layout_text (pg_prec1 pl) /\ layout_text (pg_prec2 pl)
+  | None => True
+  end ->
+  item_start rest -> not_starting tok_cont rest ->
+  exists n',
+  rule_loop true fa src (byte_len src) (fuel_for src) ((match o with Some _ => 1 | None => 0 end) + f)
+            (mkSt n a g e) rn i syms None act pstart pend
+  = rule_loop true fa src (byte_len src) (fuel_for src) f
+      (mkSt n' (match o with
+                | Some t => tokens_insert a t (tok_span (pq_prec pl) (i + byte_len kw_prec + byte_len (pg_prec1 pl)) t)
+                | None => a
+                end) g e) rn
+      (i + byte_len (match o with Some t => kw_prec ++ pg_prec1 pl ++ print_tok (pq_prec pl) t ++ pg_prec2 pl | None => [] end))
+      syms o act pstart
+      (match o with
+       | Some t => Some (i + byte_len kw_prec + byte_len (pg_prec1 pl) + byte_len (print_tok (pq_prec pl) t))
+       | None => pend
+       end).
+Proof.
+  intros fa src pre pl o rest i f n a g e rn syms act pstart pend Hs Hi Hw Hr Hnt. destruct o as [t|].
+  - destruct Hw as [Hq [Hl1 Hl2]]. eexists. cbn [Nat.add].
+    assert (Hs' : src = pre ++ kw_prec ++ pg_prec1 pl ++ print_tok (pq_prec pl) t ++ pg_prec2 pl ++ rest)
+      by (rewrite Hs; lsolve).
+    assert (Hf : tok_follow (pq_prec pl) (pg_prec2 pl ++ rest)).
+    { destruct (pq_prec pl); cbn [tok_follow]; try exact I.
+      apply not_starting_gap; [exact tok_cont_first_ok | exact Hl2 | exact Hnt]. }
+    rewrite (rl_step_prec fa _ _ _ _ _ _ _ n a g e rn syms None act pstart pend Hs' Hi Hq Hf Hl1 Hl2 Hr).
+    rewrite !byte_len_app, kw_prec_len. f_equal. lia.
+  - exists n. cbn [Nat.add byte_len]. rewrite Nat.add_0_r. reflexivity.
+Qed.
+
+Lemma stage_action : forall fa src pre pl (o : option str) rest i f n a g e rn syms prec pstart pend,
+  src = pre ++ (match o with Some t => c_lbrace :: (p_pad1 pl ++ t ++ p_pad2 pl) ++ c_rbrace :: pg_act pl | None => [] end)
+            ++ rest -> i = byte_len pre ->
+  match o with
+  | Some t => wf_action t /\ wf_pad (p_pad1 pl) /\ wf_pad (p_pad2 pl) /\ layout_text (pg_act pl)
+  | None => True
+  end ->
+  term_start rest ->
+  exists n',
+  rule_loop true fa src (byte_len src) (fuel_for src) ((match o with Some _ => 1 | None => 0 end) + f)
+            (mkSt n a g e) rn i syms prec None pstart pend
+  = rule_loop true fa src (byte_len src) (fuel_for src) f (mkSt n' a g e) rn
+      (i + byte_len (match o with Some t => c_lbrace :: (p_pad1 pl ++ t ++ p_pad2 pl) ++ c_rbrace :: pg_act pl | None => [] end))
+      syms prec (match o with Some t => Some (t, act_span fa pl i t) | None => None end) pstart
+      (match o with Some _ => Some i | None => pend end).
+Proof.
+  intros fa src pre pl o rest i f n a g e rn syms prec pstart pend Hs Hi Hw Ht. destruct o as [t|].
+  - destruct Hw as [Ha [Hp1 [Hp2 Hl]]]. cbn [Nat.add].
+    assert (Hs' : src = pre ++ c_lbrace :: (p_pad1 pl ++ t ++ p_pad2 pl) ++ c_rbrace :: pg_act pl ++ rest)
+      by (rewrite Hs; lsolve).
+    destruct (rl_step_action fa _ _ _ _ _ _ f n a g e rn syms prec None pstart pend Hs' Hi Ha Hp1 Hp2 Hl Ht)
+      as [n' Hn'].
+    exists n'. rewrite Hn'. f_equal. cbn [byte_len]. rewrite ?byte_len_app. cbn [byte_len].
+    change (len_utf8 c_lbrace) with 1. change (len_utf8 c_rbrace) with 1. rewrite ?byte_len_app. lia.
+  - exists n. cbn [Nat.add byte_len]. rewrite Nat.add_0_r. reflexivity.
+Qed.
+
+Definition opt1 {A} (o : option A) : nat := match o with Some _ => 1 | None => 0 end.
+Definition body_steps (pl : play) (p : aprod) : nat :=
+  (if uses_empty pl p then 1 else 0) + (List.length (ap_syms p) + (opt1 (ap_prec p) + opt1 (ap_action p))).
+
+(* the AST just before add_prod, and the action handed to it *)
+Definition prod_pre_ast (pl : play) (i : nat) (p : aprod) (a : gast) : gast :=
+  match ap_prec p with
+  | Some t => tokens_insert (syms_ins pl 0 (prod_o0 pl i p) (ap_syms p) a) t
+                (tok_span (pq_prec pl) (prec_tok_off pl i p) t)
+  | None => syms_ins pl 0 (prod_o0 pl i p) (ap_syms p) a
+  end.
+Definition prod_act (fa : bool) (pl : play) (i : nat) (p : aprod) : option (str * span) :=
+  match ap_action p with Some t => Some (t, act_span fa pl (prod_o2 pl i p) t) | None => None end.
+
+Lemma prod_eff_unfold : forall fa pl rn i p a,
+  prod_eff fa pl rn i p a
+  = add_prod_t (prod_pre_ast pl i p a) rn (syms_out pl 0 (prod_o0 pl i p) (ap_syms p)) (ap_prec p)
+      (prod_act fa pl i p) (i, pend_or (prod_pend pl i p) (prod_o3 pl i p)).
+Proof. reflexivity. Qed.
+
+Lemma uses_empty_nil : forall pl p, uses_empty pl p = true -> ap_syms p = [].
+Proof.
+  intros pl p H. unfold uses_empty in H. apply andb_true_iff in H. destruct H as [_ H].
+  destruct (ap_syms p); [reflexivity | discriminate H].
+Qed.
+
+Lemma empty_follow_body : forall pl p rest, ap_syms p = [] -> term_start rest ->
+  empty_follow (print_syms pl 0 (ap_syms p) ++ print_prec pl p ++ print_action pl p ++ rest).
+Proof.
+  intros pl p rest Hn Ht. rewrite Hn. cbn [print_syms app]. unfold print_prec, print_action.
+  destruct (ap_prec p) as [t|].
+  - eexists. right. right. right. rewrite <- app_assoc. reflexivity.
+  - cbn [app]. destruct (ap_action p) as [t|].
+    + eexists. right. right. left. reflexivity.
+    + cbn [app]. destruct Ht as [r [H|H]]; subst rest; eexists; [left | right; left]; reflexivity.
+Qed.
+
+Lemma rl_prod_body : forall fa D pl p src pre rest i f n a g e rn,
+  src = pre ++ print_prod pl p ++ rest -> i = byte_len pre ->
+  wf_prod D pl p -> tok_inv D a -> term_start rest ->
+  exists n',
+  rule_loop true fa src (byte_len src) (fuel_for src) (body_steps pl p + f) (mkSt n a g e) rn i [] None None i None
+  = rule_loop true fa src (byte_len src) (fuel_for src) f (mkSt n' (prod_pre_ast pl i p a) g e) rn
+      (prod_o3 pl i p) (syms_out pl 0 (prod_o0 pl i p) (ap_syms p)) (ap_prec p) (prod_act fa pl i p) i
+      (prod_pend pl i p).
+Proof.
+  intros fa D pl p src pre rest i f n a g e rn Hs Hi Hw Hinv Ht.
+  destruct Hw as [Hws [Hwp [Hwa [Hle Hlt]]]].
+  unfold print_prod in Hs. unfold body_steps.
+  set (TE := print_empty pl p) in *. set (TS := print_syms pl 0 (ap_syms p)) in *.
+  set (TP := print_prec pl p) in *. set (TA := print_action pl p) in *.
+  pose proof (prec_punct pl p rest Ht) as Hpp. fold TP TA in Hpp.
+  pose proof (action_punct pl p rest Ht) as Hpa. fold TA in Hpa.
+  (* %empty *)
+  assert (Hs1 : src = pre ++ TE ++ (TS ++ TP ++ TA ++ rest)) by (rewrite Hs; lsolve).
+  destruct (stage_empty fa src pre (uses_empty pl p) pl (TS ++ TP ++ TA ++ rest) i
+              (List.length (ap_syms p) + (opt1 (ap_prec p) + (opt1 (ap_action p) + f))) n a g e rn None None i None
+              Hs1 Hi Hle (fun Hu => empty_follow_body pl p rest (uses_empty_nil pl p Hu) Ht)) as [n1 H1].
+  rewrite <- !Nat.add_assoc. rewrite H1. clear H1.
+  fold (print_empty pl p). fold TE.
+  (* symbols *)
+  assert (Hs2 : src = (pre ++ TE) ++ TS ++ (TP ++ TA ++ rest)) by (rewrite Hs; lsolve).
+  assert (Hi2 : i + byte_len TE = byte_len (pre ++ TE)) by (subst i; rewrite byte_len_app; reflexivity).
+  destruct (rl_syms fa D pl (ap_syms p) 0 src _ _ _ (opt1 (ap_prec p) + (opt1 (ap_action p) + f)) n1 a g e rn []
+              None None i (if uses_empty pl p then Some (i + byte_len kw_empty) else None)
+              Hs2 Hi2 Hws Hinv (punct_item_start _ Hpp) (punct_not_tok_cont _ Hpp)) as [n2 H2].
+  rewrite H2. clear H2. cbn [app]. fold TS.
+  (* %prec *)
+  assert (Hs3 : src = ((pre ++ TE) ++ TS) ++ TP ++ (TA ++ rest)) by (rewrite Hs; lsolve).
+  assert (Hi3 : i + byte_len TE + byte_len TS = byte_len ((pre ++ TE) ++ TS))
+    by (subst i; rewrite !byte_len_app; reflexivity).
+  unfold TP, print_prec in Hs3.
+  destruct (stage_prec fa src _ pl (ap_prec p) _ _ (opt1 (ap_action p) + f) n2
+              (syms_ins pl 0 (i + byte_len TE) (ap_syms p) a) g e rn
+              (syms_out pl 0 (i + byte_len TE) (ap_syms p)) None i
+              (syms_pend pl 0 (i + byte_len TE) (ap_syms p) (if uses_empty pl p then Some (i + byte_len kw_empty) else None))
+              Hs3 Hi3 Hwp (punct_item_start _ Hpa) (punct_not_tok_cont _ Hpa)) as [n3 H3].
+  unfold opt1 at 1. rewrite H3. clear H3.
+  fold (print_prec pl p). fold TP.
+  (* action *)
+  assert (Hs4 : src = (((pre ++ TE) ++ TS) ++ TP) ++ TA ++ rest) by (rewrite Hs; lsolve).
+  assert (Hi4 : i + byte_len TE + byte_len TS + byte_len TP = byte_len (((pre ++ TE) ++ TS) ++ TP))
+    by (subst i; rewrite !byte_len_app; reflexivity).
+  unfold TA, print_action in Hs4.
+  destruct (stage_action fa src _ pl (ap_action p) _ _ f n3
+              (match ap_prec p with
+               | Some t => tokens_insert (syms_ins pl 0 (i + byte_len TE) (ap_syms p) a) t
+                             (tok_span (pq_prec pl) (i + byte_len TE + byte_len TS + byte_len kw_prec + byte_len (pg_prec1 pl)) t)
+               | None => syms_ins pl 0 (i + byte_len TE) (ap_syms p) a
+               end) g e rn
+              (syms_out pl 0 (i + byte_len TE) (ap_syms p)) (ap_prec p) i
+              (match ap_prec p with
+               | Some t => Some (i + byte_len TE + byte_len TS + byte_len kw_prec + byte_len (pg_prec1 pl)
+                                 + byte_len (print_tok (pq_prec pl) t))
+               | None => syms_pend pl 0 (i + byte_len TE) (ap_syms p)
+                           (if uses_empty pl p then Some (i + byte_len kw_empty) else None)
+               end)
+              Hs4 Hi4 Hwa Ht) as [n4 H4].
+  unfold opt1. rewrite H4. clear H4.
+  fold (print_action pl p). fold TA.
+  exists n4. reflexivity.
+Qed.
+
+(* ======================================================================== *)
+(*  alt | alt ... ;                                                          *)
+(* ======================================================================== *)
+Lemma syms_pend_ge : forall pl ss k off pend lo,
+  lo <= off -> (forall x, pend = Some x -> lo <= x) ->
+  forall x, syms_pend pl k off ss pend = Some x -> lo <= x.
+Proof.
+  intros pl ss. induction ss as [|s ss IH]; intros k off pend lo Hlo Hp x Hx; cbn [syms_pend] in Hx.
+  - apply Hp. exact Hx.
+  - apply (IH (S k) (sym_next pl k off s) (Some (off + byte_len (print_sym pl k s))) lo); try exact Hx.
+    + unfold sym_next. lia.
+    + intros y Hy. injection Hy as <-. lia.
+Qed.
+
+Lemma prod_pend_ge : forall pl i p, i <= pend_or (prod_pend pl i p) (prod_o3 pl i p).
+Proof.
+  intros pl i p. unfold prod_pend.
+  assert (H0 : i <= prod_o0 pl i p) by (unfold prod_o0; lia).
+  assert (H1 : i <= prod_o1 pl i p) by (unfold prod_o1; lia).
+  assert (H2 : i <= prod_o2 pl i p) by (unfold prod_o2; lia).
+  assert (H3 : i <= prod_o3 pl i p) by (unfold prod_o3; lia).
+  destruct (ap_action p); cbn [pend_or]; [exact H2|].
+  destruct (ap_prec p); cbn [pend_or]; [unfold prec_tok_off; lia|].
+  destruct (syms_pend pl 0 (prod_o0 pl i p) (ap_syms p)
+              (if uses_empty pl p then Some (i + byte_len kw_empty) else None)) as [x|] eqn:E; cbn [pend_or]; [|exact H3].
+  apply (syms_pend_ge pl (ap_syms p) 0 (prod_o0 pl i p)
+           (if uses_empty pl p then Some (i + byte_len kw_empty) else None) i H0) with (x := x); [|exact E].
+  intros y Hy. destruct (uses_empty pl p); [injection Hy as <-; lia | discriminate Hy].
+Qed.
+
+Lemma prod_pre_ast_has_rule : forall pl i p a m, has_rule (prod_pre_ast pl i p a) m = has_rule a m.
+Proof.
+  intros. unfold prod_pre_ast. destruct (ap_prec p); rewrite ?has_rule_tokens_insert; apply has_rule_syms_ins.
+Qed.
+
+Fixpoint prods_steps (rl : rlay) (pi : nat) (ps : list aprod) : nat :=
+  match ps with
+  | [] => 0
+  | p :: ps' => body_steps (r_play rl pi) p + S (prods_steps rl (S pi) ps')
+  end.
+
+Lemma print_prods_item_start : forall D rl ps pi rest,
+  wf_prods D rl pi ps -> item_start rest -> item_start (print_prods rl pi ps ++ rest).
+Proof.
+  intros D rl [|p ps] pi rest Hw Hr; [exact Hr|]. cbn [print_prods wf_prods] in *.
+  destruct Hw as [[Hws _] _]. unfold print_prod, print_empty.
+  destruct (uses_empty (r_play rl pi) p) eqn:Eu; [reflexivity|]. cbn [app].
+  destruct (ap_syms p) as [|s ss] eqn:Es.
+  - cbn [print_syms app]. unfold print_prec. destruct (ap_prec p); [reflexivity|]. cbn [app].
+    unfold print_action. destruct (ap_action p); [reflexivity|]. cbn [app]. destruct ps; reflexivity.
+  - cbn [print_syms wf_syms] in *. destruct Hws as [[Hq _] _]. unfold print_sym.
+    repeat rewrite <- app_assoc. apply print_tok_item_start. exact Hq.
+Qed.
+
+Lemma rl_prods : forall fa D rl rn ps pi src pre rest i f n a g e,
+  ps <> [] ->
+  src = pre ++ print_prods rl pi ps ++ rest -> i = byte_len pre ->
+  wf_prods D rl pi ps -> tok_inv D a -> has_rule a rn = true -> item_start rest ->
+  exists n',
+  sbind (rule_loop true fa src (byte_len src) (fuel_for src) (prods_steps rl pi ps + f)
+                   (mkSt n a g e) rn i [] None None i None)
+        (fun st j => P_ws src st j true)
+  = Done (mkSt n' (prods_eff fa rl rn pi i ps a) g e, Ok (i + byte_len (print_prods rl pi ps))).
+Proof.
+  intros fa D rl rn ps. induction ps as [|p ps IH]; intros pi src pre rest i f n a g e Hne Hs Hi Hw Hinv Hru Hr;
+    [congruence|].
+  cbn [print_prods prods_steps prods_eff wf_prods] in *. destruct Hw as [Hwp Hw'].
+  set (pl := r_play rl pi) in *.
+  pose proof Hwp as [_ [_ [_ [_ Hlt]]]].
+  replace (body_steps pl p + S (prods_steps rl (S pi) ps) + f)
+    with (body_steps pl p + S (prods_steps rl (S pi) ps + f)) by lia.
+  destruct ps as [|p' ps'].
+  - (* last production: ';' *)
+    assert (Hs1 : src = pre ++ print_prod pl p ++ (c_semi :: pg_term pl ++ rest)) by (rewrite Hs; lsolve).
+    assert (Ht : term_start (c_semi :: pg_term pl ++ rest)) by (eexists; right; reflexivity).
+    destruct (rl_prod_body fa D pl p src pre _ i (S (prods_steps rl (S pi) [] + f)) n a g e rn Hs1 Hi Hwp Hinv Ht)
+      as [n1 H1].
+    rewrite H1. clear H1.
+    assert (Hs2 : src = (pre ++ print_prod pl p) ++ c_semi :: (pg_term pl ++ rest)) by (rewrite Hs; lsolve).
+    assert (Hi2 : prod_o3 pl i p = byte_len (pre ++ print_prod pl p)).
+    { unfold prod_o3, prod_o2, prod_o1, prod_o0, print_prod. subst i. rewrite !byte_len_app. lia. }
+    rewrite (rl_step_semi fa _ _ _ _ _ n1 _ g e rn _ _ _ i _ Hs2 Hi2).
+    2:{ rewrite prod_pre_ast_has_rule. exact Hru. }
+    2:{ apply prod_pend_ge. }
+    cbn [sbind]. unfold P_ws.
+    assert (Hs3 : src = ((pre ++ print_prod pl p) ++ [c_semi]) ++ pg_term pl ++ rest) by (rewrite Hs; lsolve).
+    assert (Hi3 : prod_o3 pl i p + 1 = byte_len ((pre ++ print_prod pl p) ++ [c_semi]))
+      by (rewrite Hi2; rewrite (byte_len_app _ [c_semi]); reflexivity).
+    rewrite (ws_gap _ _ _ _ _ _ _ _ _ true Hs3 Hi3 Hlt Hr) by (intros HH; discriminate HH).
+    eexists. rewrite <- prod_eff_unfold. cbn [prods_eff]. f_equal. f_equal. f_equal.
+    rewrite Hi2. rewrite !byte_len_app. cbn [byte_len]. rewrite byte_len_app. cbn [byte_len].
+    change (len_utf8 c_semi) with 1. cbn [print_prods byte_len]. subst i. lia.
+  - (* '|' and the next production *)
+    set (ps := p' :: ps') in *.
+    assert (Hs1 : src = pre ++ print_prod pl p ++ (c_bar :: pg_term pl ++ print_prods rl (S pi) ps ++ rest))
+      by (rewrite Hs; lsolve).
+    assert (Ht : term_start (c_bar :: pg_term pl ++ print_prods rl (S pi) ps ++ rest)) by (eexists; left; reflexivity).
+    destruct (rl_prod_body fa D pl p src pre _ i (S (prods_steps rl (S pi) ps + f)) n a g e rn Hs1 Hi Hwp Hinv Ht)
+      as [n1 H1].
+    rewrite H1. clear H1.
+    assert (Hs2 : src = (pre ++ print_prod pl p) ++ c_bar :: pg_term pl ++ (print_prods rl (S pi) ps ++ rest))
+      by (rewrite Hs; lsolve).
+    assert (Hi2 : prod_o3 pl i p = byte_len (pre ++ print_prod pl p)).
+    { unfold prod_o3, prod_o2, prod_o1, prod_o0, print_prod. subst i. rewrite !byte_len_app. lia. }
+    rewrite (rl_step_bar fa _ _ _ _ _ _ n1 _ g e rn _ _ _ i _ Hs2 Hi2 Hlt
+               (print_prods_item_start _ _ _ _ _ Hw' Hr)).
+    2:{ rewrite prod_pre_ast_has_rule. exact Hru. }
+    2:{ apply prod_pend_ge. }
+    rewrite <- prod_eff_unfold.
+    assert (Hs3 : src = (pre ++ print_prod pl p ++ c_bar :: pg_term pl) ++ print_prods rl (S pi) ps ++ rest)
+      by (rewrite Hs; lsolve).
+    assert (Hi3 : prod_o3 pl i p + 1 + byte_len (pg_term pl) = byte_len (pre ++ print_prod pl p ++ c_bar :: pg_term pl)).
+    { rewrite Hi2. rewrite !byte_len_app. cbn [byte_len]. change (len_utf8 c_bar) with 1. lia. }
+    destruct (IH (S pi) src _ rest _ f (n1 + count_nl (pg_term pl)) (prod_eff fa pl rn i p a) g e
+                 ltac:(discriminate) Hs3 Hi3 Hw' (prod_eff_inv _ _ _ _ _ _ _ Hinv)
+                 ltac:(rewrite prod_eff_has_rule; exact Hru) Hr) as [n2 H2].
+    exists n2. unfold prod_next. rewrite H2. f_equal. f_equal. f_equal.
+    rewrite Hi3. rewrite !byte_len_app. cbn [byte_len]. rewrite !byte_len_app. subst i. lia.
+Qed.
+
+(* ======================================================================== *)
+(*  One rule block                                                           *)
+(* ======================================================================== *)
+Lemma print_tok_pos : forall q t, is_qname q t -> 1 <= byte_len (print_tok q t).
+Proof.
+  intros q t H. rewrite byte_len_print_tok. destruct q; cbn [tok_off]; try lia.
+  cbn [is_qname] in H. destruct t as [|c t]; [discriminate H|]. cbn [byte_len]. pose proof (len_utf8_pos c). lia.
+Qed.
+
+Lemma syms_steps_le : forall D pl ss k, wf_syms D pl k ss -> List.length ss <= byte_len (print_syms pl k ss).
+Proof.
+  intros D pl ss. induction ss as [|s ss IH]; intros k Hw; [cbn; lia|].
+  cbn [wf_syms] in Hw. destruct Hw as [[Hq _] [_ [_ Hw']]]. cbn [List.length print_syms].
+  rewrite !byte_len_app. specialize (IH (S k) Hw'). pose proof (print_tok_pos _ _ Hq). unfold print_sym. lia.
+Qed.
+
+Lemma body_steps_le : forall D pl p, wf_prod D pl p -> body_steps pl p <= byte_len (print_prod pl p).
+Proof.
+  intros D pl p [Hws _]. unfold body_steps, print_prod. rewrite !byte_len_app.
+  pose proof (syms_steps_le _ _ _ _ Hws).
+  assert (H1 : (if uses_empty pl p then 1 else 0) <= byte_len (print_empty pl p)).
+  { unfold print_empty. destruct (uses_empty pl p); [rewrite byte_len_app, kw_empty_len|]; lia. }
+  assert (H2 : opt1 (ap_prec p) <= byte_len (print_prec pl p)).
+  { unfold print_prec, opt1. destruct (ap_prec p); [rewrite byte_len_app, kw_prec_len|]; lia. }
+  assert (H3 : opt1 (ap_action p) <= byte_len (print_action pl p)).
+  { unfold print_action, opt1. destruct (ap_action p); [cbn [byte_len]; change (len_utf8 c_lbrace) with 1|]; lia. }
+  lia.
+Qed.
+
+Lemma prods_steps_le : forall D rl ps pi, wf_prods D rl pi ps -> prods_steps rl pi ps <= byte_len (print_prods rl pi ps).
+Proof.
+  intros D rl ps. induction ps as [|p ps IH]; intros pi Hw; [cbn; lia|].
+  cbn [wf_prods] in Hw. destruct Hw as [Hp Hw']. cbn [prods_steps print_prods].
+  rewrite byte_len_app. cbn [byte_len]. rewrite byte_len_app.
+  pose proof (body_steps_le _ _ _ Hp). specialize (IH (S pi) Hw').
+  assert (1 <= len_utf8 (match ps with [] => c_semi | _ :: _ => c_bar end)) by apply len_utf8_pos. lia.
+Qed.
+
+Lemma colon_not_name_cont : name_cont c_colon = false.
+Proof. reflexivity. Qed.
+
+Lemma rule_at : forall fa D src pre rl r rest i n a g e,
+  src = pre ++ print_rule rl r ++ rest -> i = byte_len pre ->
+  wf_rule D rl r -> item_start rest -> tok_inv D a ->
+  exists n',
+    sbind (parse_rule true fa KOriginal src (byte_len src) (fuel_for src) (mkSt n a g e) i)
+          (fun st j => P_ws src st j true)
+    = Done (mkSt n' (rule_eff fa rl i (actiont_of g) r a) g e, Ok (i + byte_len (print_rule rl r))).
+Proof.
+  intros fa D src pre rl r rest i n a g e Hs Hi [Hn [Hl1 [Hl2 [Hne Hwp]]]] Hr Hinv.
+  unfold print_rule in Hs.
+  set (nm := ar_name r) in *. set (body := print_prods rl 0 (ar_prods r)) in *.
+  assert (Hs0 : src = pre ++ nm ++ (rg_name rl ++ c_colon :: rg_colon rl ++ body ++ rest)) by (rewrite Hs; lsolve).
+  unfold parse_rule.
+  assert (Hnf : not_starting name_cont (rg_name rl ++ c_colon :: rg_colon rl ++ body ++ rest)).
+  { apply not_starting_gap; [exact name_cont_first_ok | exact Hl1 | exact colon_not_name_cont]. }
+  destruct (parse_name_roundtrip pre nm _ Hn Hnf) as [Hpn _]. cbn zeta in Hpn.
+  rewrite <- Hs0, <- Hi in Hpn. rewrite Hpn. cbn [lift sbind].
+  rewrite mk_span_le by lia. cbn [lifto sbind].
+  (* the state after the head *)
+  match goal with
+  | |- context [@ret nat ?X _] =>
+      replace X with (mkSt n (rule_head_eff i (actiont_of g) nm a) g e)
+        by (unfold rule_head_eff, actiont_of; cbn [ast gat]; destruct (a_start a);
+            unfold set_ast; cbn [ast gat nn errs]; destruct (get_rule _ nm); reflexivity)
+  end.
+  cbn [ret sbind].
+  set (a1 := rule_head_eff i (actiont_of g) nm a).
+  (* gap, colon, gap *)
+  assert (Hs1 : src = (pre ++ nm) ++ rg_name rl ++ (c_colon :: rg_colon rl ++ body ++ rest)) by (rewrite Hs; lsolve).
+  assert (Hi1 : i + byte_len nm = byte_len (pre ++ nm)) by (subst i; rewrite byte_len_app; reflexivity).
+  rewrite (ws_gap _ _ _ _ _ _ _ _ _ true Hs1 Hi1 Hl1 ltac:(reflexivity)) by (intros HH; discriminate HH).
+  cbn [sbind].
+  assert (Hs2 : src = ((pre ++ nm) ++ rg_name rl) ++ c_colon :: (rg_colon rl ++ body ++ rest)) by (rewrite Hs; lsolve).
+  assert (Hi2 : i + byte_len nm + byte_len (rg_name rl) = byte_len ((pre ++ nm) ++ rg_name rl))
+    by (subst i; rewrite !byte_len_app; reflexivity).
+  look1 Hs2 Hi2.
+  assert (Hs3 : src = (((pre ++ nm) ++ rg_name rl) ++ [c_colon]) ++ rg_colon rl ++ (body ++ rest)) by (rewrite Hs; lsolve).
+  assert (Hi3 : i + byte_len nm + byte_len (rg_name rl) + byte_len kw_colon
+                = byte_len (((pre ++ nm) ++ rg_name rl) ++ [c_colon]))
+    by (subst i; rewrite !byte_len_app; reflexivity).
+  rewrite (ws_gap _ _ _ _ _ _ _ _ _ true Hs3 Hi3 Hl2 (print_prods_item_start _ _ _ _ _ Hwp Hr))
+    by (intros HH; discriminate HH).
+  cbn [sbind].
+  (* the productions *)
+  assert (Hs4 : src = ((((pre ++ nm) ++ rg_name rl) ++ [c_colon]) ++ rg_colon rl) ++ body ++ rest) by (rewrite Hs; lsolve).
+  assert (Hi4 : i + byte_len nm + byte_len (rg_name rl) + byte_len kw_colon + byte_len (rg_colon rl)
+                = byte_len ((((pre ++ nm) ++ rg_name rl) ++ [c_colon]) ++ rg_colon rl))
+    by (subst i; rewrite !byte_len_app; reflexivity).
+  assert (Hfuel : fuel_for src = prods_steps rl 0 (ar_prods r) + (fuel_for src - prods_steps rl 0 (ar_prods r))).
+  { pose proof (prods_steps_le _ _ _ _ Hwp) as Hle. fold body in Hle. unfold fuel_for.
+    rewrite Hs. rewrite !byte_len_app. cbn [byte_len]. rewrite !byte_len_app. lia. }
+  match goal with
+  | |- context [rule_loop true fa src (byte_len src) (fuel_for src) (fuel_for src) ?st] =>
+      replace (rule_loop true fa src (byte_len src) (fuel_for src) (fuel_for src) st)
+        with (rule_loop true fa src (byte_len src) (fuel_for src)
+                (prods_steps rl 0 (ar_prods r) + (fuel_for src - prods_steps rl 0 (ar_prods r))) st)
+        by (rewrite <- Hfuel; reflexivity)
+  end.
+  destruct (rl_prods fa D rl nm (ar_prods r) 0 src _ rest _ (fuel_for src - prods_steps rl 0 (ar_prods r))
+              (n + count_nl (rg_name rl) + count_nl (rg_colon rl)) a1 g e Hne Hs4 Hi4 Hwp
+              (tok_inv_rule_head _ _ _ _ _ Hinv) (rule_head_has_rule _ _ _ _) Hr) as [n' Hn'].
+  exists n'. rewrite Hn'. unfold rule_eff, rule_body_off. fold nm a1.
+  change (byte_len kw_colon) with 1.
+  f_equal. f_equal. f_equal. unfold print_rule. fold nm body. rewrite ?byte_len_app. cbn [byte_len]. rewrite ?byte_len_app.
+  change (len_utf8 c_colon) with 1. lia.
+Qed.
+
+(* ======================================================================== *)
+(*  The rules section                                                        *)
+(* ======================================================================== *)
+Lemma name_start_not_pct : forall c, name_start c = true -> hd_is kw_pp c = false.
+Proof.
+  intros c H. unfold hd_is, kw_pp. apply N.eqb_neq. intros E. subst c. discriminate H.
+Qed.
+
+Lemma print_rule_hd : forall rl r, is_name (ar_name r) = true ->
+  exists c t, print_rule rl r = c :: t /\ name_start c = true.
+Proof.
+  intros rl r H. unfold print_rule. destruct (ar_name r) as [|c t]; [discriminate H|].
+  simpl in H. apply andb_true_iff in H. exists c. eexists. split; [reflexivity | tauto].
+Qed.
+
+Lemma print_rules_item_start : forall D l rs r, wf_rules D l r rs -> item_start (print_rules l r rs).
+Proof.
+  intros D l [|x rs] r Hw; [exact I|]. cbn [print_rules wf_rules] in *. destruct Hw as [[Hn _] _].
+  destruct (print_rule_hd (rlay_of l r) x Hn) as [c [t [E Hc]]]. rewrite E. cbn [app item_start].
+  apply name_start_first_ok. exact Hc.
+Qed.
+
+Lemma rules_loop_at : forall fa D l rs r src pre i f n a g e,
+  src = pre ++ print_rules l r rs -> i = byte_len pre ->
+  wf_rules D l r rs -> tok_inv D a -> List.length rs < f ->
+  exists n',
+    rules_loop true fa KOriginal src (byte_len src) (fuel_for src) f (mkSt n a g e) i
+    = Done (mkSt n' (rules_eff fa l r i (actiont_of g) rs a) g e, Ok (i + byte_len (print_rules l r rs))).
+Proof.
+  intros fa D l rs. induction rs as [|x rs IH]; intros r src pre i f n a g e Hs Hi Hw Hinv Hf.
+  - destruct f as [|f]; [cbn in Hf; lia|]. cbn [print_rules] in Hs. rewrite app_nil_r in Hs. subst pre.
+    exists n. cbn [rules_loop]. rewrite (not_lt_len_end _ _ Hi). cbn [negb ret print_rules byte_len rules_eff].
+    rewrite Nat.add_0_r. reflexivity.
+  - destruct f as [|f]; [cbn in Hf; lia|]. cbn [List.length] in Hf.
+    cbn [print_rules wf_rules rules_eff] in *. destruct Hw as [Hwr Hw'].
+    pose proof Hwr as [Hn _].
+    destruct (print_rule_hd (rlay_of l r) x Hn) as [c [t [E Hc]]].
+    assert (Hs0 : src = pre ++ c :: (t ++ print_rules l (S r) rs)) by (rewrite Hs, E; reflexivity).
+    cbn [rules_loop]. rewrite (lt_len_at _ _ _ _ _ Hs0 Hi). cbn [negb].
+    rewrite (look_at _ _ _ _ _ _ Hs0 Hi). rewrite prefix_of_hd_false by (apply name_start_not_pct; exact Hc).
+    cbn [sbind is_some].
+    assert (Hs1 : src = pre ++ print_rule (rlay_of l r) x ++ print_rules l (S r) rs) by (rewrite Hs; lsolve).
+    destruct (rule_at fa D src pre _ x _ i n a g e Hs1 Hi Hwr (print_rules_item_start _ _ _ _ Hw') Hinv) as [n1 H1].
+    destruct (parse_rule true fa KOriginal src (byte_len src) (fuel_for src) (mkSt n a g e) i)
+      as [[st1 [j|er]]| |] eqn:EX; cbn [sbind] in H1; try discriminate H1.
+    cbn [sbind]. unfold P_ws in H1. rewrite H1. cbn [sbind].
+    assert (Hs2 : src = (pre ++ print_rule (rlay_of l r) x) ++ print_rules l (S r) rs) by (rewrite Hs; lsolve).
+    assert (Hi2 : i + byte_len (print_rule (rlay_of l r) x) = byte_len (pre ++ print_rule (rlay_of l r) x))
+      by (subst i; rewrite byte_len_app; reflexivity).
+    destruct (IH (S r) src _ _ f n1 (rule_eff fa (rlay_of l r) i (actiont_of g) x a) g e Hs2 Hi2 Hw'
+                 (rule_eff_inv fa D _ _ _ _ _ Hinv) ltac:(lia)) as [n2 H2].
+    exists n2. rewrite H2. f_equal. f_equal. f_equal. rewrite byte_len_app. lia.
+Qed.
+
+Lemma rules_section_at : forall fa D l src pre gap rs i n a g e,
+  src = pre ++ kw_pp ++ gap ++ print_rules l 0 rs -> i = byte_len pre ->
+  layout_text gap -> wf_rules D l 0 rs -> tok_inv D a ->
+  exists n',
+    parse_rules true fa KOriginal src (byte_len src) (fuel_for src) (mkSt n a g e) i
+    = Done (mkSt n' (rules_eff fa l 0 (i + 2 + byte_len gap) (actiont_of g) rs a) g e, Ok (byte_len src)).
+Proof.
+  intros fa D l src pre gap rs i n a g e Hs Hi Hl Hw Hinv.
+  unfold parse_rules. look1 Hs Hi. change (byte_len kw_pp) with 2.
+  assert (Hs1 : src = (pre ++ kw_pp) ++ gap ++ print_rules l 0 rs) by (rewrite Hs; lsolve).
+  assert (Hi1 : i + 2 = byte_len (pre ++ kw_pp)) by (subst i; rewrite byte_len_app; reflexivity).
+  rewrite (ws_gap _ _ _ _ _ _ _ _ _ true Hs1 Hi1 Hl (print_rules_item_start _ _ _ _ Hw)) by (intros HH; discriminate HH).
+  cbn [sbind].
+  assert (Hs2 : src = ((pre ++ kw_pp) ++ gap) ++ print_rules l 0 rs) by (rewrite Hs; lsolve).
+  assert (Hi2 : i + 2 + byte_len gap = byte_len ((pre ++ kw_pp) ++ gap)) by (subst i; rewrite !byte_len_app; reflexivity).
+  assert (Hlen : List.length rs < fuel_for src).
+  { unfold fuel_for. rewrite Hs2. rewrite (byte_len_app _ (print_rules l 0 rs)).
+    assert (Hle : forall rs r, wf_rules D l r rs -> List.length rs <= byte_len (print_rules l r rs)).
+    { clear. intros rs. induction rs as [|x rs IH]; intros r Hw; [cbn; lia|].
+      cbn [wf_rules print_rules List.length] in *. destruct Hw as [[Hn _] Hw'].
+      destruct (print_rule_hd (rlay_of l r) x Hn) as [c [t [E _]]].
+      rewrite byte_len_app, E. cbn [byte_len]. pose proof (len_utf8_pos c). specialize (IH _ Hw'). lia. }
+    specialize (Hle rs 0 Hw). lia. }
+  destruct (rules_loop_at fa D l rs 0 src _ _ (fuel_for src) (n + count_nl gap) a g e Hs2 Hi2 Hw Hinv Hlen) as [n' Hn'].
+  exists n'. rewrite Hn'. f_equal. f_equal. f_equal. rewrite Hi2.
+  rewrite <- (byte_len_app _ (print_rules l 0 rs)). rewrite <- Hs2. reflexivity.
 Qed.
